@@ -362,24 +362,85 @@ Fixpoint implicit_delete (n : str) (prows : list row) (l : list ctable) : result
       end
   end.
 
-(** With [foreign_keys] on, the implicit DELETE compiles the ON DELETE action of every foreign key that
-    references the table; an action that rewrites the child table (CASCADE, SET NULL, SET DEFAULT)
-    fails to compile ("no such table") when that child table itself has a foreign key to a table
-    that does not exist (for SET NULL / SET DEFAULT: one sharing a column with the rewritten ones),
-    whether or not there are rows. *)
+(** With [foreign_keys] on, DROP TABLE n runs an implicit DELETE FROM n, and preparing it compiles -- whether or
+    not there are rows -- the action program of every foreign key that references n, and recursively the
+    programs of the statements those programs contain (sqlite3FkActions / fkActionTrigger / sqlite3FkCheck in
+    fkey.c; action programs are always "recursive triggers").  The statements are
+      [OpDel Y]      DELETE FROM Y           (ON DELETE CASCADE of a key of Y)
+      [OpUpd Y C]    UPDATE Y SET C = ...    (SET NULL / SET DEFAULT / ON UPDATE CASCADE of a key of Y with columns C)
+    Compiling a nested statement on Y resolves the parent table of the foreign keys of Y itself (all of them for
+    a DELETE, those sharing a column with C for an UPDATE) and fails with "no such table" when one is missing;
+    the top-level DELETE does not (errors are ignored there: pParse->disableTriggers).  A nested DELETE FROM Y
+    compiles the ON DELETE programs of the keys referencing Y, a nested UPDATE of C the ON UPDATE programs of the
+    keys whose parent columns meet C.  RESTRICT compiles a RAISE, NO ACTION nothing.
+    So a key of a *grandchild* matters too: DELETE FROM a -> (self reference ON DELETE SET DEFAULT) UPDATE a SET k
+    -> (Posts.c REFERENCES a(k) ON UPDATE CASCADE) UPDATE Posts SET c -> Posts.c also REFERENCES b, b is gone.
+    [drop_blocked] = a failing statement is reachable.  The graph is what matters: names and foreign keys.
+    Not modelled: "foreign key mismatch" (a referenced column list that is no longer a key of the parent). *)
+Definition fk_graph := list (str * list fkey).
+Definition graph_of (l : list ctable) : fk_graph := map (fun c => (ct_name c, t_fks (ct_t c))) l.
+Definition g_has (g : fk_graph) (n : str) : bool := existsb (fun p => str_eqb (fst p) n) g.
+Definition g_fks (g : fk_graph) (n : str) : list fkey :=
+  match find (fun p => str_eqb (fst p) n) g with Some p => snd p | None => [] end.
+Definition fk_missing_parent_g (g : fk_graph) (f : fkey) : bool := negb (g_has g (f_reftable f)).
+Definition meets (a b : list str) : bool := existsb (fun c => existsb (str_eqb c) b) a.
+
+Inductive fkop := OpDel (t : str) | OpUpd (t : str) (cols : list str).
+Definition fkop_eqb (a b : fkop) : bool :=
+  match a, b with
+  | OpDel x, OpDel y => str_eqb x y
+  | OpUpd x c, OpUpd y d => str_eqb x y && strs_eqb c d
+  | _, _ => false
+  end.
+Definition rewrites (act : str) : bool :=
+  let a := DiffSqlite.to_upper act in str_eqb a CASCADE || str_eqb a SET_NULL || str_eqb a SET_DEFAULT.
+(** the nested statements the action programs of the keys referencing table [x] contain, for a DELETE FROM x
+    ([cols] = None) or an UPDATE of the columns [cols] of x *)
+Definition op_children (g : fk_graph) (x : str) (cols : option (list str)) : list fkop :=
+  flat_map (fun p =>
+    flat_map (fun h =>
+      if str_eqb (f_reftable h) x then
+        match cols with
+        | None =>
+            let a := DiffSqlite.to_upper (f_ondelete h) in
+            if str_eqb a CASCADE then [OpDel (fst p)]
+            else if str_eqb a SET_NULL || str_eqb a SET_DEFAULT then [OpUpd (fst p) (f_cols h)]
+            else []
+        | Some c =>
+            if meets (f_refcols h) c && rewrites (f_onupdate h) then [OpUpd (fst p) (f_cols h)] else []
+        end
+      else []) (snd p)) g.
+Definition op_succ (g : fk_graph) (o : fkop) : list fkop :=
+  match o with
+  | OpDel y => op_children g y None
+  | OpUpd y c => op_children g y (Some c)
+  end.
+(** compiling the nested statement fails *)
+Definition op_fails (g : fk_graph) (o : fkop) : bool :=
+  match o with
+  | OpDel y => existsb (fk_missing_parent_g g) (g_fks g y)
+  | OpUpd y c => existsb (fun k => fk_missing_parent_g g k && meets (f_cols k) c) (g_fks g y)
+  end.
+(** worklist search; [fuel] bounds the number of distinct statements (two per foreign key) *)
+Fixpoint op_reach_fails (fuel : nat) (g : fk_graph) (todo seen : list fkop) : bool :=
+  match fuel with
+  | O => false
+  | S fuel' =>
+      match todo with
+      | [] => false
+      | o :: todo' =>
+          if existsb (fkop_eqb o) seen then op_reach_fails fuel' g todo' seen
+          else op_fails g o || op_reach_fails fuel' g (op_succ g o ++ todo') (o :: seen)
+      end
+  end.
+Definition drop_blocked_g (n : str) (g : fk_graph) : bool :=
+  let nfk := length (flat_map snd g) in
+  (* every step either drops an already seen statement or adds a new one (at most 2 nfk); the worklist grows
+     by at most nfk per new statement *)
+  op_reach_fails (S (2 * nfk + 1) * S nfk) g (op_children g n None) [].
+Definition drop_blocked (n : str) (l : list ctable) : bool := drop_blocked_g n (graph_of l).
 Definition fk_missing_parent (l : list ctable) (f : fkey) : bool :=
   match find_ct (f_reftable f) l with None => true | Some _ => false end.
-Definition shares_col (f g : fkey) : bool :=
-  existsb (fun c => existsb (str_eqb c) (f_cols g)) (f_cols f).
-Definition drop_blocked (n : str) (l : list ctable) : bool :=
-  existsb (fun c =>
-    existsb (fun f =>
-      str_eqb (f_reftable f) n &&
-      (let act := DiffSqlite.to_upper (f_ondelete f) in
-       (str_eqb act CASCADE && existsb (fk_missing_parent l) (t_fks (ct_t c)))
-       || ((str_eqb act SET_NULL || str_eqb act SET_DEFAULT)
-           && existsb (fun g => fk_missing_parent l g && shares_col f g) (t_fks (ct_t c)))))
-      (t_fks (ct_t c))) l.
 
 Definition drop_table (d : db) (n : str) : result db :=
   match find_ct n (db_tables d) with
